@@ -344,8 +344,9 @@ func TestVerifC11(t *testing.T) {
 		// a server that goes through reorganisations (detours onto other blocks and back)
 		reorged := w.NewReplica(w.God, dbm.NewMemDB())
 		reorged.Name, reorged.Observer = "reorged-server", true
-		if err := w.Prologue(); err != nil {
-			t.Fatal(err)
+		if !startScenario(w, rep, false) {
+			w.Cleanup()
+			continue
 		}
 		s := NewScenario(w, verifutil.NewRng(seed, 11))
 		s.Hostile, s.MaxTxs = 10, 6
